@@ -266,7 +266,7 @@ func (c *Ctx) behavModule(dir string, methods []BMethod, cfg string, driver stri
 
 func (c *Ctx) behavModuleG(dir string, methods []BMethod, generic bool, cfg string, driver string) (string, error) {
 	files := map[string]string{
-		"go.mod":               goModText + "\nrequire github.com/stretchr/testify v1.10.0\n",
+		"go.mod":               goModText + "\nrequire github.com/stretchr/testify v1.10.0\n\nrequire (\n\tgithub.com/davecgh/go-spew v1.1.1 // indirect\n\tgithub.com/pmezard/go-difflib v1.0.0 // indirect\n\tgithub.com/stretchr/objx v0.5.2 // indirect\n\tgopkg.in/yaml.v3 v3.0.1 // indirect\n)\n",
 		"store/store.go":       behavSourceG(methods, generic),
 		"store/driver_test.go": driver,
 		".mockery.yml":         cfg,
